@@ -6,5 +6,5 @@ CONSTANTS
   AddrsS = {0, 1, 7, 8, 15, 16, 17, 100, 139, 140, 141, 2000, 65535}
   WordVals = {0, 1, 255, 256, 32767, 32768, 65535, 4660}
   Depth = 12
-  Tampers = {"none", "req-integrity", "req-truncate", "resp-integrity", "resp-truncate", "unit"}
+  Tampers = {"none", "req-integrity", "req-truncate", "resp-integrity", "resp-truncate", "unit", "resp-late"}
 INVARIANTS Dump
